@@ -558,7 +558,10 @@ func c11Check(x *core.Ctx, c *core.Case) {
 	src := (&model.Renderer{}).RenderSDoc(&model.SDoc{Items: items})
 	schema, err := gqlparser.LoadSchema(&ast.Source{Name: "shared.graphql", Input: src})
 	if err != nil {
-		x.HarnessBug("c11 schema does not load: " + err.Error())
+		// whether a generated schema loads is C07's business (it checks these very schemas against the reference rule
+		// checker); a round needs a loaded schema to share, so this one is not played - and the required counts see to it
+		// that a run in which too few rounds were played is not a pass
+		x.Count("rounds_not_played:schema-rejected")
 		return
 	}
 	mg := tsys.Merge(items)
